@@ -201,6 +201,8 @@ def run(tier):
     rule_R12(res, prog)
     rule_R13(res, prog)
     rule_R14(res, prog)
+    rule_R15(res, prog)
+    rule_R16(res, prog)
     return res.finish()
 
 
@@ -1068,4 +1070,198 @@ def rule_R14(res, prog):
                          "signature check (matrixValidateCerts with an empty trust-anchor list succeeds)" % (
                              fn.relfile, ib["term"]["ln"], cu.ftext(ib["term"]["c"])[:60]), file=fn.relfile, line=ib["term"]["ln"])
         res.instance(rid, "psX509AuthenticateCert:%s identity test behind sc != ic" % ib["term"]["ln"], ok, finding=f_)
+    res.floor(rid, 2)
+
+
+def rule_R15(res, prog):
+    """'expired / not yet valid' verdicts rest on how a time string is READ: UTCTime has a two-digit year, GeneralizedTime four.
+    The tag that selects the reading (kept in a local and tested as `tag == ASN_UTCTIME` in the import call, or stored in a
+    `...Type` field for later comparisons) must be the tag of the very element being parsed: between the read `tag = *p` and
+    the use no path skips over a whole element (`p += len`) without reading the tag again.  A stale tag makes a
+    GeneralizedTime nextUpdate `20300101000000Z` read as the year 2020 (or the reverse), so an outdated CRL counts as
+    current."""
+    from sa import cfgutil as cu
+    rid = "C03.R15"
+    res.rule(rid, "the ASN.1 time tag that selects the UTCTime / GeneralizedTime reading belongs to the element being parsed")
+    n = 0
+    for fn in sorted(prog.functions.values(), key=lambda f: f.qname):
+        if not fn.blocks or not fn.relfile.startswith("crypto/keyformat/"):
+            continue
+        uses = []       # (block id, idx, line, element, var node, what)
+        for b in fn.blocks:
+            for idx, ln, x in cu.block_exprs(b):
+                for m in walk(x):
+                    if m.get("k") == "bin" and m["op"] == "=":
+                        l, r = strip(m["l"]), strip(m["r"])
+                        if l is not None and l.get("k") == "mem" and (l.get("f") or "").endswith("Type") and r is not None and \
+                                r.get("k") == "var" and r.get("sc") == "l":
+                            uses.append((b["id"], idx, ln, x, r, "store to %s" % cu.ftext(l)))
+                    if m.get("k") == "call" and m.get("fn") == "psBrokenDownTimeImport":
+                        for a in m.get("a", []):
+                            for q in walk(a):
+                                if q.get("k") == "bin" and q["op"] in ("==", "!=") and (strip(q["l"]) or {}).get("k") == "var" and \
+                                        (strip(q["l"]) or {}).get("sc") == "l" and (strip(q["r"]) or {}).get("k") == "int":
+                                    uses.append((b["id"], idx, ln, x, strip(q["l"]), "psBrokenDownTimeImport(.. %s ..)" % cu.ftext(q)))
+        if not uses:
+            continue
+        rd = cu.reaching_defs(fn)
+        IN, defs, per_block = rd
+        for (bid, idx, ln, ux, var, what) in uses:
+            dset = cu.defs_at(fn, rd, bid, idx, var["id"])
+            tagdefs = []
+            for dd in dset:
+                rhs = strip(dd[3]) if dd[3] is not None else None
+                while rhs is not None and rhs.get("k") == "cast":
+                    rhs = strip(rhs["e"])
+                if rhs is not None and rhs.get("k") == "un" and rhs["op"] == "*":
+                    tagdefs.append((dd, cu.ftext(strip(rhs["e"]))))
+            if not tagdefs:
+                continue
+            n += 1
+            bad = None
+            for (dd, ptxt) in tagdefs:
+                def advance(x, ptxt=ptxt):
+                    return any(m.get("k") == "bin" and m["op"] == "+=" and cu.ftext(strip(m["l"])) == ptxt and
+                               (strip(m["r"]) or {}).get("k") != "int" for m in walk(x))
+
+                def redef(x, vid=var["id"]):
+                    return any(m.get("k") == "bin" and m["op"] == "=" and (strip(m["l"]) or {}).get("id") == vid for m in walk(x))
+                p1 = cu.escapes(fn, (dd[0], dd[1]), lambda x, ux=ux: x is ux, target_expr=advance)
+                if p1 is None:
+                    continue
+                # from each advance reachable that way: is the use reachable without reading the tag again?
+                adv_sites = [(bb["id"], i_) for bb in fn.blocks for i_, l_, x_ in cu.block_exprs(bb) if advance(x_)]
+                for (ab, ai) in adv_sites:
+                    p2 = cu.escapes(fn, (ab, ai), redef, target_expr=lambda x, ux=ux: x is ux)
+                    if p2 is not None:
+                        bad = (dd[4], [q[1] for q in p2[-5:]])
+                        break
+                if bad:
+                    break
+            f_ = None
+            if bad is not None:
+                f_ = Finding(PROP, rid, fn.name, "time tag of a previous element used",
+                             "%s:%s %s(): %s uses `%s`, read from the encoding at line %s, after the parse pointer has been moved past a whole "
+                             "element (via lines %s) without reading the tag again: the tag of the PREVIOUS time element decides whether this "
+                             "one has a two- or four-digit year, so a GeneralizedTime nextUpdate is read as UTCTime (2030 -> 2020) or recorded "
+                             "with the wrong type, and an outdated CRL / expired certificate is taken for current" % (
+                                 fn.relfile, ln, fn.name, what, var.get("n"), bad[0], bad[1]), file=fn.relfile, line=ln)
+            res.instance(rid, "%s:%s %s with the tag of the element at hand" % (fn.name, ln, what), bad is None, finding=f_)
+    res.floor(rid, 3)
+
+
+def rule_R16(res, prog):
+    """'no certificate is revoked by an authenticated CRL the application loaded': an authenticated CRL that has passed its
+    nextUpdate cannot CLEAR a certificate, but a revocation it lists stays a revocation.  In psCRL_determineRevokedStatusBDT
+    (a) every path on which a CRL for the certificate was found consults its list (internalCrlIsRevoked) before returning,
+    and (b) the soft verdict CRL_CHECK_CRL_EXPIRED is stored only on paths that have seen `not listed` or `not
+    authenticated`."""
+    from sa import cfgutil as cu
+    rid = "C03.R16"
+    res.rule(rid, "an outdated CRL still reports the revocations it lists (the `CRL expired` soft verdict is not taken before the list was consulted)")
+    lst = prog.by_name.get("psCRL_determineRevokedStatusBDT")
+    if not lst:
+        if prog.defined("USE_CRL"):
+            raise AnalysisBroken("C03.R16: psCRL_determineRevokedStatusBDT vanished")
+        res.floor(rid, 0)
+        return
+    fn = lst[0]
+    EXP = prog.const("CRL_CHECK_CRL_EXPIRED")
+    # (a)
+    sites = cu.find_sites(fn, lambda n: n.get("k") == "call" and n.get("fn") == "internalGetCrlForCert")
+    for (bid, idx, ln, node) in sites:
+        def no_crl_edge(b, k):
+            t = b.get("term")
+            if t is None or "c" not in t or len(b["succ"]) != 2:
+                return False
+            return any(txt == "crl" and not tr for (txt, tr, nd) in cu._cond_atoms(t["c"], k == 0))
+        esc = cu.escapes(fn, (bid, idx), lambda x: cu.mentions_call(x, {"internalCrlIsRevoked"}), exempt_edge=no_crl_edge)
+        f_ = None
+        if esc is not None:
+            f_ = Finding(PROP, rid, fn.name, "a found CRL is not consulted",
+                         "%s:%s psCRL_determineRevokedStatusBDT(): with a CRL for the certificate at hand a path returns at line %s (via lines %s) "
+                         "without internalCrlIsRevoked(): a certificate listed as revoked in an authenticated CRL validates once that CRL has "
+                         "passed its nextUpdate" % (fn.relfile, ln, esc[-1][1], [p_[1] for p_ in esc[-6:]]), file=fn.relfile, line=ln)
+        res.instance(rid, "psCRL_determineRevokedStatusBDT:%s every path with a CRL consults its revocation list" % ln, esc is None, finding=f_)
+    # (b)
+    stores = []
+    for b in fn.blocks:
+        for i, ln, x in cu.block_exprs(b):
+            for m in walk(x):
+                if m.get("k") == "bin" and m["op"] == "=" and (strip(m["l"]) or {}).get("f") == "revokedStatus" and \
+                        (strip(m["r"]) or {}).get("k") == "int" and strip(m["r"])["v"] == EXP:
+                    stores.append((b["id"], ln))
+    for (sb, sln) in stores:
+        # DFS from the entry collecting branch atoms; a path reaching the store block must carry `revoked != 1` or `not authenticated`
+        bad = None
+        seen = set()
+        stack = [(fn.entry, frozenset())]
+        while stack and bad is None:
+            bid, atoms = stack.pop()
+            if (bid, atoms) in seen or len(seen) > 20000:
+                continue
+            seen.add((bid, atoms))
+            if bid == sb:
+                if not any((txt == "(revoked == 1)" and not tr) or (txt == "(crl->authenticated == 1)" and not tr) or
+                           (txt == "(revoked == 0)" and tr) or (txt == "(crl->authenticated == 0)" and tr) for (txt, tr) in atoms):
+                    bad = sorted(atoms)
+                continue
+            b = fn.bmap[bid]
+            t = b.get("term")
+            known = dict(atoms)
+
+            def ev(c):
+                # three-valued evaluation of a condition under the atoms collected on this path (short-circuit
+                # operands are separate blocks that merge before a negated compound is branched on)
+                c = strip(c)
+                if c is None:
+                    return None
+                if c.get("k") == "un" and c.get("op") == "!":
+                    v = ev(c["e"])
+                    return None if v is None else (not v)
+                if c.get("k") == "bin" and c["op"] in ("&&", "||"):
+                    l, r = ev(c["l"]), ev(c["r"])
+                    if c["op"] == "&&":
+                        return False if (l is False or r is False) else (True if (l is True and r is True) else None)
+                    return True if (l is True or r is True) else (False if (l is False and r is False) else None)
+                la = cu._cond_atoms(c, True)
+                if len(la) == 1 and la[0][0] in known:
+                    return known[la[0][0]] == la[0][1]
+                return None
+            for k, sc in enumerate(b["succ"]):
+                if sc.get("b") is None:
+                    continue
+                na = set(atoms)
+                if t is not None and "c" in t and len(b["succ"]) == 2:
+                    v = ev(t["c"])
+                    if v is not None and v != (k == 0):
+                        continue            # this edge contradicts what the path has established
+                    def infer(c, want):
+                        c = strip(c)
+                        if c is None:
+                            return []
+                        if c.get("k") == "un" and c.get("op") == "!":
+                            return infer(c["e"], not want)
+                        if c.get("k") == "bin" and c["op"] in ("&&", "||"):
+                            conj = (c["op"] == "&&")
+                            if want == conj:
+                                return infer(c["l"], want) + infer(c["r"], want)
+                            l, r = ev(c["l"]), ev(c["r"])
+                            if l is conj:
+                                return infer(c["r"], want)
+                            if r is conj:
+                                return infer(c["l"], want)
+                            return []
+                        return [(txt, tr) for (txt, tr, nd) in cu._cond_atoms(c, want)]
+                    for (txt, tr) in infer(t["c"], k == 0):
+                        if "revoked" in txt or "authenticated" in txt or "expired" in txt:
+                            na.add((txt, tr))
+                stack.append((sc["b"], frozenset(na)))
+        f_ = None
+        if bad is not None:
+            f_ = Finding(PROP, rid, fn.name, "`CRL expired` verdict hides a listed revocation",
+                         "%s:%s psCRL_determineRevokedStatusBDT(): cert->revokedStatus = CRL_CHECK_CRL_EXPIRED is reached on a path that has "
+                         "seen neither `not listed` nor `not authenticated` (atoms %s): the certificate may be listed as revoked in an "
+                         "authenticated CRL and still validates" % (fn.relfile, sln, bad), file=fn.relfile, line=sln)
+        res.instance(rid, "psCRL_determineRevokedStatusBDT:%s soft verdict only for not-listed / unauthenticated" % sln, bad is None, finding=f_)
     res.floor(rid, 2)
